@@ -312,7 +312,7 @@ func checkC01(c *mc.Ctx) {
 	c.Ev.Level = "model_checking"
 	c.Ev.Rule = "every Muxer history of the scenario (no state merging: the delivered sequence is a function of the whole byte stream) is executed on the real Muxer with tagged payloads, its output demuxed by the real Demuxer and compared per PID with what the history wrote; plus an exhaustive shape sweep of single WriteData calls (every payload length in the windows x header shape x adaptation field); distinct_nontrivial = distinct (operation-kind sequence / shape) classes with at least one delivered PES"
 	c.Ev.Assumptions = append(c.Ev.Assumptions,
-		"payload bytes never 0x00/0x01/0x47 (a continuation packet can then never look like a PES start)",
+		"payload bytes of the histories never 0x00/0x01/0x47 (tagged, distinguishable units); the shape sweep also writes payloads made of PES start-code look-alikes (00 00 01 e0 ...) and 0x47 at every phase relative to the packet boundaries",
 		"PES headers carry a non-nil OptionalHeader (stream ids with optional header); HasCRC / pack header are not writable and not requested",
 		"demuxer configured with the explicit packet size 188 on a bytes.Reader (framing/reader independence is C08)")
 	// (i) histories without merging
@@ -393,14 +393,15 @@ func checkC01(c *mc.Ctx) {
 	}
 	// (ii) shape sweep of a single WriteData followed by one small unit on the same PID
 	sweepC01(c)
-	c.Ev.Require("history-with-2-or-more-pes", "payload-over-65535", "exact-fit", "one-byte-stuffing", "af-room-exactly-header")
+	c.Ev.Require("history-with-2-or-more-pes", "payload-over-65535", "exact-fit", "one-byte-stuffing", "af-room-exactly-header", "start-code-lookalike-payload")
 }
 
 type shape struct {
-	PID uint16
-	Len int
-	Hdr string
-	AF  string
+	PID  uint16
+	Len  int
+	Hdr  string
+	AF   string
+	Host int
 }
 
 func sweepC01(c *mc.Ctx) {
@@ -410,7 +411,16 @@ func sweepC01(c *mc.Ctx) {
 		for l := 1; l <= 760; l++ {
 			for _, hd := range []string{"pts", "ptsdts", "none", "full"} {
 				for _, af := range []string{"", "raipcr", "priv10", "ext", "splice"} {
-					shapes = append(shapes, shape{pid, l, hd, af})
+					shapes = append(shapes, shape{pid, l, hd, af, 0})
+				}
+			}
+		}
+		// payloads made of PES start-code look-alikes, at every phase relative to the packet boundaries
+		for l := 1; l <= 760; l++ {
+			for ph := 1; ph <= 9; ph++ {
+				shapes = append(shapes, shape{pid, l, "pts", "", ph})
+				if l%4 == 0 {
+					shapes = append(shapes, shape{pid, l, "none", "raipcr", ph})
 				}
 			}
 		}
@@ -420,16 +430,16 @@ func sweepC01(c *mc.Ctx) {
 		}
 		for l := 65300; l <= 65700; l += step {
 			for _, hd := range []string{"pts", "full"} {
-				shapes = append(shapes, shape{pid, l, hd, ""})
+				shapes = append(shapes, shape{pid, l, hd, "", 0})
 			}
 		}
 		for _, l := range []int{65513, 65514, 65515, 65516, 65517, 65518, 65519, 65520, 65521, 65522, 65527, 65528, 65529, 65535, 65536} {
 			for _, hd := range []string{"pts", "ptsdts", "none"} {
-				shapes = append(shapes, shape{pid, l, hd, "raipcr"})
+				shapes = append(shapes, shape{pid, l, hd, "raipcr", 0})
 			}
 		}
 		for l := 131000; l <= 131100; l += step {
-			shapes = append(shapes, shape{pid, l, "pts", ""})
+			shapes = append(shapes, shape{pid, l, "pts", "", 0})
 		}
 		// structural header shapes around the packet boundary
 		lens := []int{1, 2}
@@ -438,7 +448,7 @@ func sweepC01(c *mc.Ctx) {
 		}
 		for n := 0; n < nHdrShapes; n++ {
 			for _, l := range lens {
-				shapes = append(shapes, shape{pid, l, fmt.Sprintf("s%d", n), ""})
+				shapes = append(shapes, shape{pid, l, fmt.Sprintf("s%d", n), "", 0})
 			}
 		}
 		// adaptation fields sized to leave room = header+2, +1, +0, -1 and 0 bytes
@@ -450,7 +460,7 @@ func sweepC01(c *mc.Ctx) {
 					continue
 				}
 				for _, l := range []int{1, 2, 10, 200} {
-					shapes = append(shapes, shape{pid, l, hd, fmt.Sprintf("priv%d", n)})
+					shapes = append(shapes, shape{pid, l, hd, fmt.Sprintf("priv%d", n), 0})
 				}
 			}
 		}
@@ -459,7 +469,7 @@ func sweepC01(c *mc.Ctx) {
 	n := int64(len(shapes))
 	done := mc.ParFor(n, c.OverBudget, func(i int64) {
 		s := shapes[i]
-		ops := append(append([]MOp{}, setup...), MOp{K: "data", PID: s.PID, Len: s.Len, Hdr: s.Hdr, AF: s.AF}, MOp{K: "data", PID: s.PID, Len: 5})
+		ops := append(append([]MOp{}, setup...), MOp{K: "data", PID: s.PID, Len: s.Len, Hdr: s.Hdr, AF: s.AF, Host: s.Host}, MOp{K: "data", PID: s.PID, Len: 5})
 		vs := roundTrip(40, ops, c.Seed)
 		for _, v := range vs {
 			c.Rep.Report(v.Sig, map[string]any{"kind": "mux-roundtrip", "scenario": "shape-sweep", "period": 40, "ops": ops, "message": v.Msg})
@@ -483,7 +493,10 @@ func sweepC01(c *mc.Ctx) {
 		if afl > 0 && free == 0 {
 			c.Ev.Class("af-room-exactly-header", 1)
 		}
-		c.Ev.Distinct(fmt.Sprintf("shape|%x|%s|%s|%d", s.PID, s.Hdr, s.AF, s.Len))
+		if s.Host > 0 {
+			c.Ev.Class("start-code-lookalike-payload", 1)
+		}
+		c.Ev.Distinct(fmt.Sprintf("shape|%x|%s|%s|%d|%d", s.PID, s.Hdr, s.AF, s.Len, s.Host))
 		if i%50021 == 0 {
 			c.Ev.Sample(map[string]any{"scenario": "shape-sweep", "shape": s})
 		}
